@@ -171,7 +171,9 @@ impl ByteBufferPool {
 
         if let Some(mut buf) = pool.pop() {
             buf.clear();
-            buf.reserve(size.saturating_sub(buf.capacity()));
+            // The buffer is empty now: reserve() counts from its length, so ask
+            // for the whole size (a no-op when the capacity already suffices).
+            buf.reserve(size);
             buf
         } else {
             Vec::with_capacity(size)
